@@ -44,10 +44,12 @@ def run (j : Json) : Except String Json := do
   let strFailed := match (← j.getObjVal? "impl").getObjVal? "str_failed" with
     | .ok (.str _) => true
     | _ => false
-  let holds := !strFailed && checkC05 evs errText rootError impl && tailOK
+  -- `traceback.format_exception_only` of an error whose own `__str__` raised
+  let unrendered := errs.any (fun e => isInfix "<exception str() failed>".toList e.2)
+  let holds := !strFailed && !unrendered && checkC05 evs errText rootError impl && tailOK
   let modelHolds := checkC05 evs errText rootError model
   return Json.mkObj [("agree", model == impl), ("holds", holds), ("model_holds", modelHolds), ("clauses", toJson (clausesC05 evs errText rootError impl)),
-    ("why", if holds then "" else if strFailed then "str(exc) raised: the error has no message" else if !tailOK then "the message does not end with the type and message of the original error" else "the trace does not begin with the root target / list the failing path in order / show the failing spec's target / show every failed branch"),
+    ("why", if holds then "" else if strFailed then "str(exc) raised: the error has no message" else if unrendered then "the message of an error in the trace could not be rendered: its __str__ raised" else if !tailOK then "the message does not end with the type and message of the original error" else "the trace does not begin with the root target / list the failing path in order / show the failing spec's target / show every failed branch"),
     ("model", Json.mkObj [("trace", model)]),
     ("branch", (if branching then "branching" else "linear") ++ (if chained then "+chain" else "") ++
                s!"-rows{rows.length}")]
